@@ -20,6 +20,7 @@ func memberMenu() []Mem {
 		{Kind: "slot", Slot: 1, V: 2, K: 4},
 		{Kind: "invalid", V: 0, K: 4},
 		{Kind: "other", V: 1},
+		{Kind: "nan", V: 2, K: 4},
 	}
 }
 
